@@ -6,7 +6,7 @@ CONFIG = dict(
     oracles=[("c01", 6000, 240000)],
     full_statement_proved=True,
     missing="",
-    rule="v4enc: generated packets (3/4 inside the encodable domain, option value lengths concentrated on the 0/255/256/510/511/765 boundaries) encoded by ToBytes three times and by the Lean model; v4dec: encoder output, hand-laid, truncated, perturbed and random wire bytes decoded by FromBytes and by the model; oracle c01: FromBytes(ToBytes(p)) == p on the domain. non-trivial = carries at least one option (enc) / longer than the fixed header (dec); distinct = distinct operation lines",
+    rule="v4enc: (oracle c01 also runs the probe shared-encode in a child process: one unmodified packet with a relay agent information option encoded, decoded and printed by eight goroutines at once - a read that writes a map ends in a runtime fatal error, reported with the child's first line; class v4-roundtrip-shared-concurrent) generated packets (3/4 inside the encodable domain, option value lengths concentrated on the 0/255/256/510/511/765 boundaries) encoded by ToBytes three times and by the Lean model; v4dec: encoder output, hand-laid, truncated, perturbed and random wire bytes decoded by FromBytes and by the model; oracle c01: FromBytes(ToBytes(p)) == p on the domain. non-trivial = carries at least one option (enc) / longer than the fixed header (dec); distinct = distinct operation lines",
     assumptions=["Go nil and empty option values are identified in the model"],
 )
 
